@@ -154,6 +154,13 @@ func networkNodes() []*repo.NetworkNodes {
 
 // NewReplica creates empty stores and runs the real genesis.
 func NewReplica(opt Options) *Replica {
+	r := NewEmptyReplica(opt)
+	r.Genesis()
+	return r
+}
+
+// NewEmptyReplica opens a ledger on empty stores (height 0, no genesis yet).
+func NewEmptyReplica(opt Options) *Replica {
 	r := &Replica{Opt: opt, Chain: memkv.New("chain"), State: memkv.New("state"), Dir: newDir()}
 	r.Cfg = opt.config()
 	r.Repo = LedgerRepo()
@@ -162,6 +169,12 @@ func NewReplica(opt Options) *Replica {
 	if err := r.open(); err != nil {
 		panic(err)
 	}
+	return r
+}
+
+// Genesis runs the real genesis initialisation if the chain is empty (as the
+// application does at start-up).
+func (r *Replica) Genesis() {
 	if r.L.GetChainMeta().Height == 0 {
 		view, err := executor.New(r.L, Logger(), &appchain.Client{}, r.Cfg, big.NewInt(0))
 		if err != nil {
@@ -175,7 +188,6 @@ func NewReplica(opt Options) *Replica {
 			panic(err)
 		}
 	}
-	return r
 }
 
 func (r *Replica) open() error {
